@@ -142,6 +142,9 @@ class Module:
         self.is_pkg = is_pkg
         self.is_test = "/test/" in "/" + relpath or relpath.endswith("/test/__init__.py")
         self.tree = ast.parse(source, filename=relpath)
+        if os.environ.get("SA_NO_NORMALIZE") != "1":
+            from . import normalize
+            self.tree = normalize.normalize(self.tree, relpath)
         set_parents(self.tree)
         for n in ast.walk(self.tree):
             n._module = self
